@@ -193,4 +193,158 @@ def finalFile (w : Nat) (f : File) : List Step → File
   | [] => f
   | s :: ss => finalFile w (step w f s).2 ss
 
+/-! ## Histories with width changes (code at HEAD, commit 3612fda)
+
+The in-memory provider at HEAD reduces the stored count **before** handing it out:
+
+```
+modulus = pow(2, self._max_bit_width); curr_count = self.count % modulus
+self.count = (curr_count + 1) % modulus; return curr_count
+```
+
+the `max_bit_width` setter stores the width and nothing else, and `count` is a public attribute that a
+program may assign any integer to. `MemS` is that state (`count : Int`, because a negative integer
+can be assigned; Python's `%` with a positive modulus is the non-negative remainder, `Int.emod`),
+`MemOp` the alphabet of what a program can do with the provider. (`Mem.getAndIncrement` above is the
+code before 3612fda: it returns `count` as it is. `MemS.callPre` repeats it on `MemS`, for the
+negative documentation theorem.) -/
+
+structure MemS where
+  count : Int
+  width : Nat
+deriving DecidableEq, Repr
+
+inductive MemOp
+  | call                   -- `get_and_increment()` / `next(provider)`
+  | setWidth (w : Nat)     -- `provider.max_bit_width = w`
+  | setCount (c : Int)     -- `provider.count = c` (any integer, also negative)
+deriving DecidableEq, Repr
+
+/-- `SeqCountProvider(bit_width)` -/
+def MemS.new (w : Nat) : MemS := ⟨0, w⟩
+
+/-- `pow(2, self._max_bit_width)` -/
+def MemS.modulus (m : MemS) : Int := ((2 ^ m.width : Nat) : Int)
+
+/-- `get_and_increment` at HEAD: `curr_count = count % modulus` is returned (it is non-negative, so it
+    is handed out as a natural number), `(curr_count + 1) % modulus` is stored -/
+def MemS.call (m : MemS) : Nat × MemS :=
+  let curr := m.count % m.modulus
+  (curr.toNat, { m with count := (curr + 1) % m.modulus })
+
+/-- `get_and_increment` before 3612fda: the stored count is returned unreduced -/
+def MemS.callPre (m : MemS) : Nat × MemS :=
+  (m.count.toNat, { m with count := (m.count + 1) % m.modulus })
+
+def memStep (m : MemS) : MemOp → Option Nat × MemS
+  | .call => (some m.call.1, m.call.2)
+  | .setWidth w => (none, { m with width := w })
+  | .setCount c => (none, { m with count := c })
+
+def memStepPre (m : MemS) : MemOp → Option Nat × MemS
+  | .call => (some m.callPre.1, m.callPre.2)
+  | op => memStep m op
+
+/-- one output per operation: `some v` for a call, `none` for an assignment -/
+def memTrace (m : MemS) : List MemOp → List (Option Nat)
+  | [] => []
+  | op :: ops => (memStep m op).1 :: memTrace (memStep m op).2 ops
+
+def memTracePre (m : MemS) : List MemOp → List (Option Nat)
+  | [] => []
+  | op :: ops => (memStepPre m op).1 :: memTracePre (memStepPre m op).2 ops
+
+/-- the provider after a history -/
+def memFinal (m : MemS) : List MemOp → MemS
+  | [] => m
+  | op :: ops => memFinal (memStep m op).2 ops
+
+/-- the width in force after a history: the argument of the last `setWidth`, else the initial one -/
+def widthAfter (w : Nat) : List MemOp → Nat
+  | [] => w
+  | .setWidth w' :: ops => widthAfter w' ops
+  | _ :: ops => widthAfter w ops
+
+/-- **Comparison semantics of the tie** (used by the driver op `seq_mem_run`, not a model of the code).
+    The property fixes the value of a call only when the counter stands at a value that fits the width:
+    after a `setWidth` that the count does not fit, and after any assignment to `count`, the first
+    value is *open* (any value in range is right: reduction modulo `2^w`, a reset to 0, …). At such a
+    call the run takes the next value of `rebase` (what the implementation returned there), if it is in
+    range, as the new count (`memRebase`); everything else is `memStep`. Output: value and whether it was open. -/
+def memRebase (m : MemS) (isOpen : Bool) (rebase : List Int) : MemS :=
+  match isOpen, rebase with
+  | true, r :: _ => if 0 ≤ r ∧ r < m.modulus then { m with count := r } else m
+  | _, _ => m
+
+def memRunOpen (m : MemS) (isOpen : Bool) (rebase : List Int) : List MemOp → List (Nat × Bool)
+  | [] => []
+  | .call :: ops =>
+    ((memRebase m isOpen rebase).call.1, isOpen)
+      :: memRunOpen (memRebase m isOpen rebase).call.2 false (if isOpen then rebase.tail else rebase) ops
+  | .setWidth w :: ops =>
+    memRunOpen { m with width := w } (isOpen || !(decide (0 ≤ m.count) && decide (m.count < ((2 ^ w : Nat) : Int)))) rebase ops
+  | .setCount c :: ops => memRunOpen { m with count := c } true rebase ops
+
+def memRunOpenTR (m : MemS) (isOpen : Bool) (rebase : List Int) (ops : List MemOp) (acc : Array (Nat × Bool)) :
+    List (Nat × Bool) :=
+  match ops with
+  | [] => acc.toList
+  | .call :: ops =>
+    memRunOpenTR (memRebase m isOpen rebase).call.2 false (if isOpen then rebase.tail else rebase) ops
+      (acc.push ((memRebase m isOpen rebase).call.1, isOpen))
+  | .setWidth w :: ops =>
+    memRunOpenTR { m with width := w } (isOpen || !(decide (0 ≤ m.count) && decide (m.count < ((2 ^ w : Nat) : Int)))) rebase ops acc
+  | .setCount c :: ops => memRunOpenTR { m with count := c } true rebase ops acc
+
+theorem memRunOpenTR_eq (m : MemS) (isOpen : Bool) (rebase : List Int) (ops : List MemOp) (acc : Array (Nat × Bool)) :
+    memRunOpenTR m isOpen rebase ops acc = acc.toList ++ memRunOpen m isOpen rebase ops := by
+  induction ops generalizing m isOpen rebase acc with
+  | nil => simp [memRunOpenTR, memRunOpen]
+  | cons op ops ih => cases op <;> simp [memRunOpenTR, memRunOpen, ih]
+
+def memRunOpenFast (m : MemS) (isOpen : Bool) (rebase : List Int) (ops : List MemOp) : List (Nat × Bool) :=
+  memRunOpenTR m isOpen rebase ops #[]
+
+@[csimp] theorem memRunOpen_eq_fast : @memRunOpen = @memRunOpenFast := by
+  funext m o r ops; simp [memRunOpenFast, memRunOpenTR_eq]
+
+/-! ## File-backed provider with width changes
+
+The instance keeps the width (`_max_bit_width`, changed by the setter) and the file name; the file is
+the counter. `check_count` compares the stored value with the width **in force at that call**. -/
+
+inductive WStep
+  | op (s : Step)          -- call / current / restart (a new instance of the same width) / delete
+  | setWidth (w : Nat)     -- `provider.max_bit_width = w`: the file is not touched
+  | createNew              -- `provider.create_new()`: the file becomes `"0\n"`
+deriving DecidableEq, Repr
+
+/-- state: width of the live instance, file -/
+abbrev WState := Nat × File
+
+def wstep (st : WState) : WStep → Out × WState
+  | .op s => ((step st.1 st.2 s).1, (st.1, (step st.1 st.2 s).2))
+  | .setWidth w => (.none, (w, st.2))
+  | .createNew => (.none, (st.1, create))
+
+/-- output of every step together with the state (width in force, file) after it -/
+def wtrace (st : WState) : List WStep → List (Out × WState)
+  | [] => []
+  | s :: ss => wstep st s :: wtrace (wstep st s).2 ss
+def wtraceTR (st : WState) (steps : List WStep) (acc : Array (Out × WState)) : List (Out × WState) :=
+  match steps with
+  | [] => acc.toList
+  | s :: ss => wtraceTR (wstep st s).2 ss (acc.push (wstep st s))
+
+theorem wtraceTR_eq (st : WState) (steps : List WStep) (acc : Array (Out × WState)) :
+    wtraceTR st steps acc = acc.toList ++ wtrace st steps := by
+  induction steps generalizing st acc with
+  | nil => simp [wtraceTR, wtrace]
+  | cons s ss ih => simp [wtraceTR, wtrace, ih]
+
+def wtraceFast (st : WState) (steps : List WStep) : List (Out × WState) := wtraceTR st steps #[]
+
+@[csimp] theorem wtrace_eq_wtraceFast : @wtrace = @wtraceFast := by
+  funext st steps; simp [wtraceFast, wtraceTR_eq]
+
 end SpVerif.SeqCount
